@@ -7,4 +7,5 @@ let () =
   | _ :: "c15" :: path :: mm :: _ -> Spec_cmds.c15 ~model:(is_permanent, is_transient) path mm
   | _ :: "c17" :: path :: mm :: _ -> Spec_cmds.c17 ~model:{ Spec_cmds.m_cb_call = cb_call; m_calc = calculate_backoff } path mm
   | _ :: "c14" :: path :: mm :: _ -> Spec_cmds.c14 path mm
+  | _ :: "sim" :: path :: mm :: _ -> Sim_cmds.sim path mm
   | _ -> prerr_endline "usage: oracle <command> <cases> <mismatch-out>"; exit 2
